@@ -81,6 +81,39 @@ def padding_guard(ctx, rule="C19.exact"):
     return n
 
 
+def orbit_order(ctx, rule="C19.set-order"):
+    ctx.explain(f"{rule}: (canonical orbit order) an orbit is the photon pattern in NON-INCREASING order: the enumerator `orbits` and the "
+                "conversion `sample_to_orbit` (sibling producers of the same representation, compared with `==` by the event / orbit "
+                "probability estimators) hand out `sorted(..., reverse=True)` at every return / yield that sorts.")
+    n = 0
+    for qn in ("orbits", "sample_to_orbit"):
+        try:
+            f = ctx.tree.func(SIM, qn)
+        except Exception:
+            ctx.note(f"{rule}: {qn} not present")
+            continue
+        k = 0
+        for st in walk_no_nested(f.node):
+            v = st.value if isinstance(st, (ast.Return, ast.Expr)) else None
+            if isinstance(v, (ast.Yield, ast.YieldFrom)):
+                v = v.value
+            elif not isinstance(st, ast.Return):
+                continue
+            if v is None:
+                continue
+            e = expand_locals(f.node, v)
+            srt = [c for c in ast.walk(e) if isinstance(c, ast.Call) and dotted(c.func) == "sorted"]
+            if not srt:
+                continue
+            n += 1
+            k += 1
+            ok = all(any(kw.arg == "reverse" and isinstance(kw.value, ast.Constant) and kw.value.value is True for kw in c.keywords) for c in srt)
+            ctx.ob(rule, f.site, ok, "" if ok else f"`{ast.unparse(v)[:50]}`: this producer hands out the orbit in increasing order, its "
+                   "siblings in non-increasing order - orbits of the same sample no longer compare equal", role=f"orbit-order:{k}", line=st.lineno)
+    if n == 0:
+        ctx.note(f"{rule}: no sorting orbit producer found")
+
+
 def exact(ctx, rule="C19.exact"):
     ctx.explain(f"{rule}: the value returned by orbit_cardinality / event_cardinality is built from integer-exact "
                 "operations only (no true division, no factorial(..., exact=False), no floating-point product).")
@@ -272,6 +305,7 @@ def order(ctx, rule="C19.set-order"):
 def rules(ctx):
     orbit_fits(ctx)
     padding_guard(ctx)
+    orbit_order(ctx)
     exact(ctx)
     index_space(ctx)
     clique_taint(ctx)
